@@ -620,7 +620,7 @@ static void case_resigned(KeyEnt &K, Rng &r, int block, int nblocks) {
 	}
 	// altered proof values, re-signed: positions of this block
 	std::vector<std::pair<int, size_t>> pos;
-	for (int st = 0; st < 3; st++) for (size_t k = 0; k < S[st]; k++) { bool pick = (full && K.spec.bits <= 1100) ? true : (k == 0 || k == S[st] - 1); if (pick) pos.push_back({st, k}); }
+	for (int st = 0; st < 3; st++) for (size_t k = 0; k < S[st]; k++) { bool pick = (full && K.spec.bits <= 700 && K.spec.id < 17) ? true : (k == 0 || k == S[st] - 1 || (full && K.spec.bits <= 1100 && k % 16 == (size_t)(K.spec.id % 16))); if (pick) pos.push_back({st, k}); }
 	for (size_t i = 0; i < pos.size(); i++) {
 		if ((int)(i % nblocks) != block) continue;
 		int st = pos[i].first; size_t k = pos[i].second;
@@ -666,7 +666,8 @@ int main(int argc, char **argv) {
 		if (tamper_ops && !(big && ks.nizk)) { ops.push_back({"sig-tamper", 0, 1}); if (size_pre(ks.bits).enc_ok) ops.push_back({"enc-tamper", 0, 1}); }
 		if (!(big && ks.nizk)) ops.push_back({"pubkey-tamper", 0, 1});
 		if (tamper_ops && !big) ops.push_back({"seckey-tamper", 0, 1});
-		int nb = !ks.nizk ? 1 : (quick ? (slow ? 0 : 2) : (big ? 1 : 16));
+		bool sweep = !quick && ks.nizk && ks.bits <= 700 && ks.id < 17;      // every proof value x catalogue, re-signed: the small fixed keys
+		int nb = !ks.nizk ? 1 : (quick ? (slow ? 0 : 2) : (big ? 1 : (sweep ? 16 : 2)));
 		for (int b = 0; b < nb; b++) ops.push_back({"resigned", b, nb});
 		for (auto &op : ops) {
 			J d; d.kv("op", op.name).kv("keybits", ks.bits).kv("nizk", ks.nizk).kv("keyidx", ks.id); if (op.nblocks > 1) d.kv("block", op.block);
